@@ -167,11 +167,21 @@ def IntClass.set (k : IntClass) (s : Str) : SetRes Int :=
   | some v => k.setValue v
   | none => .error
 
+def digitChar (d : Nat) : Char := Char.ofNat (48 + d)
+
+/-- decimal digits, least significant first (`fuel` > number of digits) -/
+def natDigitsRev : Nat → Nat → Str
+  | 0, _ => []
+  | f + 1, n => digitChar (n % 10) :: (if n / 10 = 0 then [] else natDigitsRev f (n / 10))
+
+/-- `repr(n)` for a natural number -/
+def natStr (n : Nat) : Str := (natDigitsRev (n + 1) n).reverse
+
 /-- `repr(int)` -/
 def intStr (v : Int) : Str :=
   match v with
-  | .ofNat n => natToStr n
-  | .negSucc n => '-' :: natToStr (n + 1)
+  | .ofNat n => natStr n
+  | .negSucc n => '-' :: natStr (n + 1)
 
 /-! ### lists -/
 
